@@ -154,15 +154,26 @@ func (fs *FSResults) Spool(graph string, stream *Stream) (string, error) {
 			resultFile.Write([]byte("\n"))
 			job.Status.Count += 1
 		}
-		statusPath := filepath.Join(spoolDir, "status")
-		statusFile, err := os.Create(statusPath)
+		// The job is reported as complete only after its status record is on
+		// disk: a job that a client has seen complete survives a restart.
+		done := &Job{
+			Status: gripql.JobStatus{Query: job.Status.Query, Id: job.Status.Id, Graph: job.Status.Graph,
+				Timestamp: job.Status.Timestamp, Count: job.Status.Count, State: gripql.JobState_COMPLETE},
+			DataType:      job.DataType,
+			MarkTypes:     job.MarkTypes,
+			StepChecksums: job.StepChecksums,
+		}
+		out, err := json.Marshal(done)
 		if err == nil {
-			defer statusFile.Close()
-			job.Status.State = gripql.JobState_COMPLETE
-			out, err := json.Marshal(job)
+			// written under another name first: a reader never finds a partial record
+			statusPath := filepath.Join(spoolDir, "status")
+			err = ioutil.WriteFile(statusPath+".tmp", []byte(fmt.Sprintf("%s\n", out)), 0600)
 			if err == nil {
-				statusFile.Write([]byte(fmt.Sprintf("%s\n", out)))
+				err = os.Rename(statusPath+".tmp", statusPath)
 			}
+		}
+		if err == nil {
+			job.Status.State = gripql.JobState_COMPLETE
 			log.Printf("Job Done: %s (%d results)", jobName, job.Status.Count)
 		} else {
 			job.Status.State = gripql.JobState_ERROR
